@@ -456,7 +456,16 @@ func runC18(r *Run) {
 	}
 
 	// effective gas price: one definition only
-	if fn, ok := P.FnOK("(" + evmTypes + ".DynamicFeeTx).EffectiveGasPrice"); ok {
+	var dynEGP *ssa.Function
+	for _, pre := range []string{"(" + evmTypes + ".DynamicFeeTx).", "(*" + evmTypes + ".DynamicFeeTx)."} {
+		if f, ok := P.FnOK(pre + "EffectiveGasPrice"); ok && f.Synthetic == "" {
+			dynEGP = f
+		}
+	}
+	if dynEGP == nil {
+		r.Bad("R4", evmTypes+".DynamicFeeTx#EffectiveGasPrice", "", "method not found")
+	}
+	if fn := dynEGP; fn != nil {
 		nRet, okE := 0, true
 		eachInstr(fn, func(in ssa.Instruction) {
 			ret, isR := in.(*ssa.Return)
@@ -470,16 +479,26 @@ func runC18(r *Run) {
 				return
 			}
 			a := c.Call.Args
-			_, c1 := callNamed(a[1], "GetGasFeeCap")
-			_, c2 := callNamed(a[2], "GetGasTipCap")
-			if !isParam(a[0], "baseFee") || !c1 || !c2 {
+			s1, s2 := backSlice(a[1]), backSlice(a[2])
+			c1 := s1.HasCall(func(g CallInfo) bool { return g.Name == "GetGasFeeCap" }) || s1.HasField("DynamicFeeTx", "GasFeeCap")
+			c2 := s2.HasCall(func(g CallInfo) bool { return g.Name == "GetGasTipCap" }) || s2.HasField("DynamicFeeTx", "GasTipCap")
+			if !isParam(a[0], "baseFee") || !c1 || !c2 || s1.HasField("DynamicFeeTx", "GasTipCap") || s2.HasField("DynamicFeeTx", "GasFeeCap") {
 				okE = false
 			}
 		})
 		r.Check(okE && nRet == 1, "R4", fnID(fn)+"#single-definition", P.Pos(fnPos(fn)), "returns EffectiveGasPrice(baseFee, feeCap, tipCap) and nothing else", "DynamicFeeTx.EffectiveGasPrice is not the single expression EffectiveGasPrice(baseFee, GetGasFeeCap(), GetGasTipCap()): effective price/fee/cost figures derived from the message can differ from go-ethereum's for the same transaction")
 	}
 	for _, tn := range []string{"LegacyTx", "AccessListTx"} {
-		if fn, ok := P.FnOK("(" + evmTypes + "." + tn + ").EffectiveGasPrice"); ok {
+		var fn *ssa.Function
+		for _, pre := range []string{"(" + evmTypes + "." + tn + ").", "(*" + evmTypes + "." + tn + ")."} {
+			if f, ok := P.FnOK(pre + "EffectiveGasPrice"); ok && f.Synthetic == "" {
+				fn = f
+			}
+		}
+		if fn == nil {
+			r.Bad("R4", evmTypes+"."+tn+"#EffectiveGasPrice", "", "method not found")
+		}
+		if ok := fn != nil; ok {
 			nRet, okE := 0, true
 			eachInstr(fn, func(in ssa.Instruction) {
 				if ret, isR := in.(*ssa.Return); isR {
